@@ -277,6 +277,7 @@ end""", ['s', 'a']),
 ("init_twice_typer", "c = 5\nc = 0\ns = 0\nwhile true:\n    if c == 0:\n        s = s + 1\n    end\n    c = c\nend", ["s", "c"]),      # D29: the typer used the first of several initial assignments
 ("init_twice_const", "x = 0\ny = 5\ny = x + 1\nz = 0\nwhile true:\n    x = x + 1\n    z = z + y\nend", ["z", "y", "x"]),
 ("init_reassign_between", "x = 0\ny = 5\nu = y + x\ny = 7\nz = 0\nwhile true:\n    x = x + 1\n    z = z + u + y\nend", ["z", "y", "u"]),
+("dice_sum_toggle", "t = 0\nwins = 0\nwhile true:\n    d1 = DiscreteUniform(1, 6)\n    d2 = DiscreteUniform(1, 6)\n    if d1 + d2 + t == 8:\n        wins = wins + 1\n    end\n    t = 1 - t\nend", ["wins", "t"]),      # 36 raw combinations, 11 distinct sums: must stay finite-typed
 ("d18_uninit_under_guard", """x = 3
 c = 0
 while c == 1:
